@@ -117,6 +117,18 @@ func ruleR012(c *Ctx) {
 						}
 					}
 				}
+				if !ok2 && len(as.Lhs) == 2 {
+					// any other form of the same fact: the found flag is known to be true where the literal is created
+					if l1, ok := as.Lhs[1].(*ast.Ident); ok && l1.Name != "_" {
+						if g := c.CFG(gi.decl); g != nil {
+							for _, gd := range g.Guards(lit) {
+								if id2, ok := ast.Unparen(gd.Cond).(*ast.Ident); ok && gd.Val && !gd.Synth && info.ObjectOf(id2) == info.ObjectOf(l1) {
+									ok2 = true
+								}
+							}
+						}
+					}
+				}
 				if !ok2 {
 					c.Violation(key, pos, "the closure using index %s is not confined to the branch on which the lookup succeeded", id.Name)
 					return
@@ -283,8 +295,26 @@ func (c *Ctx) checkRecursionSlot(a *genAnchors, gi *generatorInfo, argsAdd *type
 		}
 		return true
 	})
-	var addCalls, appendCalls []*ast.CallExpr
+	var addCalls []*ast.CallExpr
+	var appendCalls []ast.Node
+	slotKey, slotPos := "", token.NoPos
 	ast.Inspect(gi.decl.Body, func(n ast.Node) bool {
+		// ops[len(outer)] = func…: the slot behind the captured names of a slice allocated with its final length
+		if as, ok := n.(*ast.AssignStmt); ok && len(as.Lhs) == 1 && len(as.Rhs) == 1 && opsObj != nil {
+			if ix, ok := ast.Unparen(as.Lhs[0]).(*ast.IndexExpr); ok {
+				if sid, ok := ast.Unparen(ix.X).(*ast.Ident); ok && info.ObjectOf(sid) == opsObj {
+					if ln, ok := ast.Unparen(ix.Index).(*ast.CallExpr); ok && len(ln.Args) == 1 {
+						if lid, ok := ast.Unparen(ln.Fun).(*ast.Ident); ok && lid.Name == "len" {
+							if _, isSlice := info.TypeOf(ln.Args[0]).Underlying().(*types.Slice); isSlice {
+								appendCalls = append(appendCalls, as)
+								slotKey, _ = exprKey(info, ln.Args[0])
+								slotPos = as.Pos()
+							}
+						}
+					}
+				}
+			}
+		}
 		if call, ok := n.(*ast.CallExpr); ok {
 			if isCallTo(info, call, argsAdd) {
 				addCalls = append(addCalls, call)
@@ -338,6 +368,9 @@ func (c *Ctx) checkRecursionSlot(a *genAnchors, gi *generatorInfo, argsAdd *type
 	if cmKey == "" || rangeKey == "" {
 		c.Undecided(key2, gi.decl.Pos(), "could not find the captured-name sequence (conversion to argsList / range)")
 		return
+	}
+	if slotKey != "" && slotKey != rangeKey {
+		c.Violation(key, slotPos, "the self reference is stored at index len(%s), but the captured names that precede it are those of %s: the slot does not match the position of the name in the compile time list", strings.SplitN(slotKey, "@", 2)[0], strings.SplitN(rangeKey, "@", 2)[0])
 	}
 	c.Check(cmKey == rangeKey, key2, gi.decl.Pos(),
 		"compile time capture list and run time access operations are both built from "+strings.SplitN(cmKey, "@", 2)[0],
